@@ -247,7 +247,7 @@ def _member(h, i):
                 # the member's message: an opaque token (a compound's own message is a "; "-join of such tokens)
                 return SStr('message-%d' % i, nonempty=True, parts=('atoms', '; ', ['message-%d' % i])) if t else ''
             return t
-        m = h.fn('member_%d' % i, sym=sym)
+        m = h.fn('member_%d' % i, sym=sym, attrs={'__module__': 'mystic.termination'})
     else:
         def native(H, solver, info=False):
             if info is True:
@@ -368,3 +368,49 @@ def gradient_norm(h):
         h.check('solver-%s-judged-by-its-own-gradient' % tag, 'iff(truthy(r), n <= tol)', r=r, n=n, tol=tol)
         if info:
             h.check('info-is-doc-or-empty-for-%s' % tag, 'iff(r == "", not (n <= tol))', r=r, n=n, tol=tol)
+
+
+def _members_of(h, c):
+    if h.is_sym():
+        return list(h.st.heap[c]['__items__'])
+    return list(c)
+
+
+@contract('C10/compound-construction', ['C10'], T + 'And.__new__')
+def compound_construction(h):
+    """And(...) / Or(...) / When(.) built the public way (`__new__` executed): the members are exactly the conditions
+    given, in order -- a SINGLE member that is itself a compound (of the same or the other kind) stays ONE member, a
+    single tuple of conditions (the pickling form) is unpacked, and rebuilding `type(c)(*c)` gives an equal compound"""
+    kind = h.choice('kind', ['And', 'Or', 'When'])
+    form = h.choice('built_from', ['one-primitive', 'two-primitives', 'one-compound-of-the-other-kind', 'one-compound-of-the-same-kind',
+                                   'one-tuple-of-two', 'compound-and-primitive'])
+    if kind == 'When' and form in ('two-primitives', 'compound-and-primitive'):
+        return
+    a, b, c_ = [_member(h, i)[0] for i in range(3)]
+    K = h.get(T + kind)
+    other = h.get(T + ('Or' if kind != 'Or' else 'And'))
+    same = h.get(T + (kind if kind != 'When' else 'And'))
+    if form == 'one-primitive':
+        args, want = [a], [a]
+    elif form == 'two-primitives':
+        args, want = [a, b], [a, b]
+    elif form == 'one-compound-of-the-other-kind':
+        inner = h.call(other, a, b)
+        args, want = [inner], [inner]
+    elif form == 'one-compound-of-the-same-kind':
+        inner = h.call(same, a, b)
+        args, want = [inner], [inner]
+    elif form == 'one-tuple-of-two':
+        if kind == 'When':
+            args, want = [h.tup(a)], [a]
+        else:
+            args, want = [h.tup(a, b)], [a, b]
+    else:
+        inner = h.call(other, a, b)
+        args, want = [inner, c_], [inner, c_]
+    c = h.call(K, *args)
+    got = _members_of(h, c)
+    h.check('members-are-exactly-the-conditions-given-in-order', 'ok', ok=(len(got) == len(want) and all(g is w for g, w in zip(got, want))))
+    again = h.call(K, *got)
+    got2 = _members_of(h, again)
+    h.check('rebuilding-from-its-members-gives-the-same-members', 'ok', ok=(len(got2) == len(want) and all(g is w for g, w in zip(got2, want))))
